@@ -1,6 +1,6 @@
 (* Props/C12.v - Results stream lazily with back-pressure and without starving other clients. *)
 From Coq Require Import List Arith NArith Lia Bool.
-From MM Require Import Lib.Bytes Model.Conn Proofs.StreamProofs Gen.FactsConn Gen.FactsStream.
+From MM Require Import Lib.Bytes Model.Conn Proofs.StreamProofs Gen.FactsConn Gen.FactsStream Gen.FactsRoute Gen.FactsVars.
 Import ListNotations.
 Open Scope N_scope.
 
@@ -12,7 +12,11 @@ Theorem c12_source_shape :
   translated_conn = true /\ stream_mysqlstream_write_ok = true /\ stream_mysqlstream_drain_ok = true /\
   utils_cooperative_iterate_ok = true /\ utils_aiterate_ok = true /\ connection_connection_text_resultset_ok = true /\
   connection_connection_handle_query_ok = true /\ connection_connection_handle_stmt_execute_ok = true /\
-  connection_connection_handle_stmt_fetch_ok = true /\ stream_flush_rule_ge = true /\ stream_buffer_size = B.
+  connection_connection_handle_stmt_fetch_ok = true /\ stream_flush_rule_ge = true /\ stream_buffer_size = B /\
+  (* between the application and the connection the result object passes the session's middleware chain untouched *)
+  session_query_next_ok = true /\ session_query_start_ok = true /\ session_session_handle_query_ok = true /\
+  session_session_set_var_middleware_ok = true /\ session_session_replace_variables_middleware_ok = true /\
+  session_session_info_schema_middleware_ok = true /\ connection_connection_query_ok = true.
 Proof. repeat split; reflexivity. Qed.
 
 (* back-pressure, buffer part: after ANY write the library holds less than B bytes, or nothing *)
